@@ -276,6 +276,7 @@ func checkSurface(s vxfw.Surface, lines [][]gr, width, maxH int, style func(gr) 
 			end--
 		}
 		col := 0
+		lead := map[int]bool{}
 		for _, g := range ln[:end] {
 			if isSpaceG(g.g) {
 				// whitespace inside a line only advances the column
@@ -292,7 +293,18 @@ func checkSurface(s vxfw.Surface, lines [][]gr, width, maxH int, style func(gr) 
 			if cell.Style != style(g) {
 				return fmt.Sprintf("rows|row %d col %d has the wrong style", row, col)
 			}
+			lead[col] = true
 			col += g.w
+		}
+		// exactly the line: every other cell of the row (whitespace, the second column of a wide grapheme, the rest of
+		// the row) is empty or whitespace - nothing of an earlier frame, nothing of another line
+		for c := 0; c < int(s.Size.Width); c++ {
+			if lead[c] {
+				continue
+			}
+			if g := s.Buffer[row*int(s.Size.Width)+c].Grapheme; g != "" && !isSpaceG(g) {
+				return fmt.Sprintf("rows|row %d col %d shows %q where the line %q has nothing", row, c, g, lineStrings([][]gr{ln})[0])
+			}
 		}
 	}
 	return ""
